@@ -171,7 +171,7 @@ def del (db : TDB) (t : GT) (pk : Bytes) : GT × Res :=
   | .cached i r =>
     let t1 : GT := { t with rows := t.rows.set i { r with ty := .none }, rowmap := assocDel t.rowmap pk }
     if r.ty = .add then (t1, .ok)
-    else (addRowCache t1 { r with ty := .del }, .ok)
+    else (addRowCache t1 { r with ty := .del, data := match r.old with | some o => o | none => r.data }, .ok)
   | .stored p d => (addRowCache t ⟨.del, p, d, none⟩, .ok)
 
 /-! ### Save of one table -/
